@@ -83,6 +83,15 @@ impl can for Pb { id: 11, device: "ecu", signal y { endianess: "big", }, }
 '''
 
 
+# a schema every CAN generator must REFUSE part-way: the variable-size field sits inside a nested struct, after fields that can be laid out
+REFUSED_SCHEMA = '''version: "3"
+
+struct Label { code @0: u8, temps @1: [u8, 2], text @2: str, }
+struct Reading { seq @0: u8, label @1: Label, tail @2: u16, }
+impl can for Reading { id: 30, device: "ecu", }
+'''
+
+
 def digest(files):
     return hashlib.sha1(json.dumps(sorted(files.items())).encode()).hexdigest()[:20]
 
@@ -127,6 +136,9 @@ def run_c17(tier, seed):
     with open(os.path.join(sdir, "options.fcp"), "w") as f:
         f.write(OPTIONS_SCHEMA)
     pool["gen:options"] = os.path.join(sdir, "options.fcp")
+    with open(os.path.join(sdir, "refused.fcp"), "w") as f:
+        f.write(REFUSED_SCHEMA)
+    refused = os.path.join(sdir, "refused.fcp")
     for i in range(4 if tier == "quick" else 20):
         sch = rand_can_schema(rng)
         p = os.path.join(sdir, "can%d.fcp" % i)
@@ -166,6 +178,15 @@ def run_c17(tier, seed):
             for g1, g2 in (("dbc", "dbc"), ("can_c", "can_c"), ("cpp", "cpp"), ("nop", "can_c"), ("can_c", "dbc")):
                 runs.append(([{"op": "generate", "g": g1, "s": "s2", "mode": "fresh"}, {"op": "generate", "g": g2, "s": "s1", "mode": "fresh"}],
                              {"s1": x, "s2": y}))
+    # a generation that is REFUSED (it raises or returns an error part-way) must leave nothing behind for the generations after it
+    for n in names:
+        if not n.startswith("gen:") and tier == "quick" and names.index(n) % 3:
+            continue
+        for g1, g2 in (("dbc", "dbc"), ("can_c", "can_c"), ("dbc", "can_c"), ("can_c", "dbc"), ("can_c", "cpp")):
+            runs.append(([{"op": "generate", "g": g1, "s": "s2", "mode": "fresh"}, {"op": "generate", "g": g2, "s": "s1", "mode": "fresh"},
+                          {"op": "generate", "g": g1, "s": "s2", "mode": "fresh"}, {"op": "generate", "g": g1, "s": "s1", "mode": "fresh"}],
+                         {"s1": n, "s2": "gen:refused"}))
+    pool["gen:refused"] = refused
     # a watch loop: two revisions of one schema (same names, other contents) regenerated alternately, each tree released before
     # the next parse - anything remembered per object ADDRESS or per name from an earlier revision shows here
     for a, b in twins[:3]:
